@@ -163,6 +163,9 @@ class Rig:
         self.mgr = None            # the DeckMemoryManager (created with the first deck operation / after a disconnect)
         self.mgr_uid = {'r': None, 'w': None}
         self.decks = {}
+        self.deck_react = {}       # token -> reaction of the caller's deck callback
+        self.nested_deck = 0       # deck requests made from inside deck callbacks
+        self.deck_acc = True
         self.last_read_ret = None
         orig_read = self.mem.read
 
@@ -285,9 +288,32 @@ class Rig:
         code = {'drok': 12, 'drfail': 13, 'dwok': 14, 'dwfail': 15}[kind]
         self.stream.append(('dn', kind, tok, a, data))
         self.cur += [code, tok, a] + ([len(data)] + data if data is not None else [])
+        # the caller's deck callback may issue the next deck request from inside (next block, retry)
+        r = self.deck_react.pop(tok, None)
+        if r and not self.in_disc and r['on'] in ('any', 'ok' if kind in ('drok', 'dwok') else 'fail'):
+            keep = self.cur
+            fr = {'fresh': True, 'obs': [], 'lock': None, 'nested': False, 'early': -1}
+            self.frames.append(fr)
+            self.cur = fr['obs']
+            self.nested_deck += 1
+            try:
+                self._issue_deck(r['op'])
+            except WouldBlock:
+                raise
+            except Exception as e:
+                # the manager refused (or something raised): seen by the caller's callback; nothing of the handler
+                # follows the deck listener, so recording it with the nested request loses nothing
+                self.cur += [7]
+                self.last_raised = True
+                self.last_exc = '%s: %s' % (type(e).__name__, e)
+            finally:
+                fr['lockend'] = self.locked()
+                self.cur = keep
 
     def _issue_deck(self, ev):
-        self.flat.append(list(ev))
+        self.flat.append(list(ev[:5]))
+        if len(ev) > 5 and ev[5]:
+            self.deck_react[ev[4]] = ev[5]
         u0 = self.uid
         self.stream.append(('dop', ev, u0))
         dk = self._deck(ev[1])
@@ -297,21 +323,26 @@ class Rig:
             self._issue_deck_call(dk, ev, tok, u0)
         finally:
             self.in_call -= 1
-        self.stream.append(('dopret', ev, u0, self.uid))
+        self.stream.append(('dopret', ev, u0, self.uid, self.deck_acc if ev[0] == 'DR' else True))
 
     def _issue_deck_call(self, dk, ev, tok, u0):
         if ev[0] == 'DR':
             self.last_read_ret = None
-            if self.mgr._read_complete_cb is None:      # otherwise the manager refuses ('Read operation ongoing')
+            # the uid is taken before the call (an early reply may complete the read, and the caller's callback make
+            # the next request, before the call returns); the manager refuses while a read is outstanding
+            pred = self.mgr._read_complete_cb is None and DECK_ID not in self.mem._read_requests
+            if pred:
                 self.mgr_uid['r'] = u0
+                self.uid += 1
             if tok >= 0:
                 dk.read(ev[2], ev[3], lambda a, data: self._dnote('drok', tok, a, list(data)),
                         read_failed_cb=lambda a: self._dnote('drfail', tok, a))
             else:                  # a negative token: the caller passes no failure callback (it is optional)
                 dk.read(ev[2], ev[3], lambda a, data: self._dnote('drok', tok, a, list(data)))
-            if self.last_read_ret:
-                self.uid += 1
+            if bool(self.last_read_ret) != pred:
+                self.uid += 1 if self.last_read_ret else -1
             self.cur += [6, 1 if self.last_read_ret else 0]
+            self.deck_acc = bool(self.last_read_ret)
         else:
             if self.mgr._write_complete_cb is None:
                 self.mgr_uid['w'] = u0
